@@ -114,6 +114,33 @@ func repCases() []repCase {
 	add("Conv", nil, 1, "1x1-unit-kernel", f(1, 1, 1, 2, 2), ref.FromF(ref.F32, []int{1, 1, 1, 1}, 1))
 	add("Scaler", []hx.Attr{hx.AFloats("offset", 0), hx.AFloats("scale", 1)}, 1, "identity", f(1, 2, 3))
 	add("PRelu", nil, 1, "unit-slope", f(1, 2, 3), ref.FromF(ref.F32, []int{3}, 1, 1, 1))
+	// second operands of the same rank with leading / trailing extent-1 axes (per-channel parameters)
+	add("PRelu", nil, 1, "per-channel-slope(1,C,1,1)", f(1, 2, 3, 2, 2), f(2, 1, 3, 1, 1))
+	add("PRelu", nil, 1, "per-channel-slope(C,1,1)", f(1, 2, 3, 2, 2), f(2, 3, 1, 1))
+	add("Add", nil, 1, "per-channel(1,C,1,1)", f(1, 2, 3, 2, 2), f(2, 1, 3, 1, 1))
+	add("Mul", nil, 1, "per-channel(C,1,1)", f(1, 2, 3, 2, 2), f(2, 3, 1, 1))
+	add("Gemm", nil, 1, "bias(M,1)", f(1, 2, 3), f(2, 3, 2), f(3, 2, 1))
+	// outputs with a single position per channel / a single element
+	add("Conv", nil, 1, "N1-output-1x1-bias", f(1, 1, 2, 2, 2), f(2, 3, 2, 2, 2), f(3, 3))
+	add("Conv", nil, 1, "1D-N1-output-1-bias", f(1, 1, 2, 3), f(2, 2, 2, 3), f(3, 2))
+	add("ConstantOfShape", []hx.Attr{hx.ATensor("value", ref.FromF(ref.F32, []int{1}, 2.5), "typed")}, 1, "single-element-typed-value", ref.I64Vec(1))
+	add("ConstantOfShape", []hx.Attr{hx.ATensor("value", ref.FromF(ref.F32, []int{1}, 2.5), "typed")}, 1, "single-element-rank2-typed-value", ref.I64Vec(1, 1))
+	add("ConstantOfShape", []hx.Attr{hx.ATensor("value", ref.FromF(ref.F32, []int{1}, 2.5), "raw")}, 1, "single-element-raw-value", ref.I64Vec(1))
+	add("Constant", []hx.Attr{hx.ATensor("value", ref.FromF(ref.F32, []int{1}, 2.5), "typed")}, 1, "single-element-typed")
+	add("Constant", []hx.Attr{hx.AFloat("value_float", 2.5)}, 1, "value_float")
+	add("Constant", []hx.Attr{hx.AInts("value_ints", 1, 2, 3)}, 1, "value_ints")
+	// element types beyond the numeric ones through the operators whose gate allows every type
+	for _, dt := range []ref.DT{ref.C64, ref.C128, ref.Str, ref.Bool, ref.U16} {
+		d := ref.Distinct(dt, []int{2, 3})
+		add("Shape", nil, 1, "dtype="+dt.String(), d)
+		add("Transpose", []hx.Attr{hx.AInts("perm", 1, 0)}, 1, "dtype="+dt.String(), d)
+		add("Reshape", nil, 1, "dtype="+dt.String(), d, ref.I64Vec(3, 2))
+		add("Concat", []hx.Attr{hx.AInt("axis", 0)}, 1, "dtype="+dt.String(), d, d)
+		add("Unsqueeze", nil, 1, "dtype="+dt.String(), d, ref.I64Vec(0))
+		add("Flatten", []hx.Attr{hx.AInt("axis", 1)}, 1, "dtype="+dt.String(), d)
+		add("Gather", []hx.Attr{hx.AInt("axis", 0)}, 1, "dtype="+dt.String(), d, ref.I64Vec(1, 0))
+		add("Expand", nil, 1, "dtype="+dt.String(), ref.Distinct(dt, []int{1, 3}), ref.I64Vec(2, 3))
+	}
 	add("Reshape", nil, 1, "", f(1, 2, 3), ref.I64Vec(3, -1))
 	add("Flatten", []hx.Attr{hx.AInt("axis", 1)}, 1, "", f(1, 2, 3, 2))
 	add("Squeeze", nil, 1, "", f(1, 2, 1, 3), ref.I64Vec(1))
